@@ -37,6 +37,9 @@ def _cmds(rng, k):
     for nm in rng.sample(CMD_NAMES[:7], k):
         cls = nm + rng.choice(["", "", "Impl"])
         out.append([cls, nm if cls != nm else None])
+    if rng.random() < 0.08:
+        # "override by subclassing": a user command derived from a built-in one that keeps the built-in's name
+        out.append(["Sum", None, "builtin:Sum"])
     return out
 
 
@@ -78,10 +81,15 @@ def generate(prop, rng, index, tier):
             if rng.random() < 0.3 and any(s["package"] for s in universe):
                 pk = rng.choice([s for s in universe if s["package"]])
                 libs = [pk["name"] + "." + rng.choice(pk["subs"])["name"]]
+            if rng.random() < 0.15 and any(s["package"] for s in universe):
+                pk = rng.choice([s for s in universe if s["package"]])
+                pair = [pk["name"], pk["name"] + "." + rng.choice(pk["subs"])["name"]]
+                rng.shuffle(pair)
+                libs = pair
             ops.append(["PROGRAM", libs])
         elif r < 0.87:
             libs = rng.sample(tops, rng.randint(1, min(2, len(tops))))
-            defined = [n or c for sp in universe if sp["name"] in libs for c, n in sp["commands"]]
+            defined = [c[1] or c[0] for sp in universe if sp["name"] in libs for c in sp["commands"]]
             ops.append(["LOAD", libs, rng.choice(defined) if rng.random() < 0.75 else rng.choice(CMD_NAMES[:7])])
         else:
             cfg = rng.choice(["csv", "netcdf"])
@@ -111,13 +119,27 @@ class {cls}(Command):
 '''
 
 
-def _class_src(cls, name):
+SUBCLASS_TMPL = '''
+from mpilot.libraries.eems.basic import {base} as _Base{base}
+
+
+class {cls}(_Base{base}):
+    TAG = __name__ + ":{cls}"
+
+    def execute(self, **kwargs):
+        return type(self).TAG
+'''
+
+
+def _class_src(cls, name, kind=None):
+    if kind and kind.startswith("builtin:"):
+        return SUBCLASS_TMPL.format(cls=cls, base=kind.split(":")[1])
     return CLASS_TMPL.format(cls=cls, name_line=('    name = "%s"\n' % name) if name else "")
 
 
 def _write_universe(root, universe):
     for spec in universe:
-        body = MODULE_TMPL + "".join(_class_src(c, n) for c, n in spec["commands"])
+        body = MODULE_TMPL + "".join(_class_src(*c) for c in spec["commands"])
         if spec["package"]:
             d = os.path.join(root, spec["name"])
             os.makedirs(d)
@@ -125,7 +147,7 @@ def _write_universe(root, universe):
                 f.write(body)
             for s in spec["subs"]:
                 with open(os.path.join(d, s["name"] + ".py"), "w") as f:
-                    f.write(MODULE_TMPL + "".join(_class_src(c, n) for c, n in s["commands"]))
+                    f.write(MODULE_TMPL + "".join(_class_src(*c) for c in s["commands"]))
         else:
             with open(os.path.join(root, spec["name"] + ".py"), "w") as f:
                 f.write(body)
@@ -215,9 +237,9 @@ def _static_commands(universe):
     """module name -> list of (command name, class name) as written in the files."""
     out = {}
     for spec in universe:
-        out[spec["name"]] = [(n or c, c) for c, n in spec["commands"]]
+        out[spec["name"]] = [(c[1] or c[0], c[0]) for c in spec["commands"]]
         for s in spec["subs"]:
-            out[spec["name"] + "." + s["name"]] = [(n or c, c) for c, n in s["commands"]]
+            out[spec["name"] + "." + s["name"]] = [(c[1] or c[0], c[0]) for c in s["commands"]]
     return out
 
 
